@@ -120,6 +120,32 @@ def c07_3(ctx):
         ctx.check(all(_sat(gi.f_and(e.cond, given)) for e in wide), "reader-dispatches-given-byte", ctx.where(pf),
                   "parse_satoshi_int reads the 2 / 4 / 8 byte forms only when it read the first byte itself: a prefix byte 0xfd / 0xfe / 0xff handed in by the caller is returned as the count")
     _refcheck(ctx, SSTR, "stream_satoshi_string", "ss_stream", "var-string-writer")
+    # any function that computes the SIZE of a compact-size integer (answers 1 / 3 / 5 / 9 by the value) uses the writer's own
+    # partition: 0..252, 253..65535, 65536..2^32-1, the rest
+    want_sz = {1: iv(None, 252), 3: iv(253, 65535), 5: iv(65536, 0xFFFFFFFF), 9: iv(0x100000000, None)}
+    n_sz = 0
+    for q_, g_ in sorted(ctx.p.functions.items()):
+        if not isinstance(g_.node, (ast.FunctionDef, ast.AsyncFunctionDef)) or not g_.params() or not g_.module.relpath.startswith(("pycoin/coins/", "pycoin/satoshi/", "pycoin/serialize/", "pycoin/message/", "pycoin/block")):
+            continue
+        rets = [r.value for r in ast.walk(g_.node) if isinstance(r, ast.Return) and r.value is not None]
+        vals = [df.const_int(r) for r in rets]
+        if len(rets) < 3 or any(v is None for v in vals) or not set(vals) <= {1, 3, 5, 9} or len(set(vals)) < 3:
+            continue
+        n_sz += 1
+        subj = [p_ for p_ in g_.params() if p_ not in ("self", "cls")][:1]
+        if not subj:
+            continue
+        wz = sym.int_walk(ctx, g_, {subj[0]})
+        got_sz = {}
+        for e in wz.exits:
+            if e.kind == "return" and e.value is not None and df.const_int(e.value) is not None:
+                got_sz[df.const_int(e.value)] = got_sz.get(df.const_int(e.value), E) | sym.may_set(e.cond, U, E)
+        for k_ in sorted(set(got_sz) | set(want_sz)):
+            g0, w0 = got_sz.get(k_, E), want_sz.get(k_, E)
+            okz = (g0 & iv(0, None)) == (w0 & iv(0, None))
+            ctx.check(okz, "compact-size-size:%s:%d" % (g_.name, k_), ctx.where(g_), "%s answers %d bytes for values %s; the compact-size form of that width holds %s (253 and 65536 / 2^32 are where the widths change)" % (q_, k_, g0.fmt(), w0.fmt()),
+                      sample={"function": q_, "bytes": k_, "values": g0.fmt()})
+    ctx.ok("compact-size-size-functions", sample={"functions_answering_1_3_5_9": n_sz}, nontrivial=False)
     _refcheck(ctx, SSTR, "parse_satoshi_string", "ss_parse", "var-string-reader")
 
 
